@@ -805,6 +805,12 @@ def str_starts_with_char(e, args, fr, m):
     s, c = e.load(args[0]), e.force(args[1])
     if s.concrete:
         return s.v.startswith(chr(c.v))
+    if isinstance(s, SegStr) and s.segs:
+        if s.segs[0][0] == 'lit' and s.segs[0][1]:
+            return s.segs[0][1].startswith(chr(c.v))
+        if s.segs[0][0] == 'dec':
+            if not chr(c.v).isdigit():
+                return False
     return z3.simplify(z3.PrefixOf(z3.StringVal(chr(c.v)), s.z()))
 
 
@@ -1258,3 +1264,55 @@ def tuple_cmp(e, args, fr, m):
     if op in ('le', 'ge'):
         res = disj([res, prefix])
     return res
+
+
+@contract(r'^<impl str>::(trim|trim_start|trim_end)$')
+def str_trim(e, args, fr, m):
+    s_ = e.load(args[0])
+    which = m.group(1)
+    f = {'trim': str.strip, 'trim_start': str.lstrip, 'trim_end': str.rstrip}[which]
+    if s_.concrete:
+        return Str(f(s_.v))
+    if isinstance(s_, SegStr):
+        segs = list(s_.segs)
+        if which in ('trim', 'trim_start') and segs and segs[0][0] == 'lit':
+            segs[0] = ('lit', segs[0][1].lstrip())
+        if which in ('trim', 'trim_end') and segs and segs[-1][0] == 'lit':
+            segs[-1] = ('lit', segs[-1][1].rstrip())
+        # a symbolic number never starts or ends with white space
+        return simplify_seg(SegStr(segs))
+    raise Unsupported('trim of a symbolic string')
+
+
+@contract(r'^<impl (u8|u16|u32|u64|u128|usize|i32|i64)>::saturating_add$')
+def int_saturating_add(e, args, fr, m):
+    a, b = e.force(args[0]), e.force(args[1])
+    r = e.binop('AddWithOverflow', a, b)
+    if e.branch(r.fields[1]):
+        w, signed = INT_TYPES[a.ty]
+        # overflow direction: positive for unsigned; for signed the sign of b decides
+        if not signed:
+            return Int((1 << w) - 1, a.ty)
+        neg = e.branch(e.binop('Lt', b, Int(0, b.ty)))
+        return Int(-(1 << (w - 1)) if neg else (1 << (w - 1)) - 1, a.ty)
+    return r.fields[0]
+
+
+@contract(r'^<Vec<.*> as IndexMut<usize>>::index_mut$|^<\[.*\] as IndexMut<usize>>::index_mut$')
+def vec_index_mut(e, args, fr, m):
+    r = e.force(args[0])
+    v = e.load(r)
+    i = e.force(args[1])
+    if not i.concrete:
+        raise Unsupported('symbolic index')
+    if i.v >= len(v.items):
+        raise Panic('index out of bounds: the len is %d but the index is %d' % (len(v.items), i.v))
+    while isinstance(r, (Ref, ValRef)):
+        inner = e.force(e.read_place(r.frame, (r.local, r.projs)) if isinstance(r, Ref) else r.v)
+        if isinstance(inner, (Ref, ValRef)):
+            r = inner
+        else:
+            break
+    if not isinstance(r, Ref):
+        raise Unsupported('index_mut on a vector without a place')
+    return Ref(r.frame, r.local, r.projs + (('vecindex', i.v),))
